@@ -181,6 +181,8 @@ where
         P: Protocol<T::IO, B, Connection = C> + Send + 'static,
         C: PoolableConnection<B>,
     {
+        #[cfg(feature = "verif-hooks")]
+        crate::verif_hooks::yield_point("pool::checkout lock");
         let mut inner = self.inner.lock();
         let (tx, rx) = tokio::sync::oneshot::channel();
         let mut connector: Option<Connector<T, P, B>> = Some(connector);
@@ -282,6 +284,8 @@ where
     }
 
     pub(in crate::client) fn lock(&self) -> Option<PoolGuard<C, B>> {
+        #[cfg(feature = "verif-hooks")]
+        crate::verif_hooks::yield_point("poolref lock");
         self.inner
             .upgrade()
             .map(|inner| PoolGuard(inner.lock_arc()))
